@@ -33,7 +33,7 @@ def check_hw(ctx, case):
     data, axis, k = case['data'], case['axis'], case['nb_words']
     d0 = data.copy()
     model = scared.HammingWeight(nb_words=k, expected_dtype=data.dtype)
-    out = must(case, 'HammingWeight(nb_words=%d)(data %s %s, axis=%s)' % (k, data.dtype, data.shape, axis), model, gen.L(case, data), **({} if axis is None else {'axis': axis}))
+    out, _hist = gen.pure_call(case, 'HammingWeight(nb_words=%d)(data %s %s, axis=%s)' % (k, data.dtype, data.shape, axis), model, [gen.L(case, data)], {} if axis is None else {'axis': gen.npint(case, axis) if axis >= 0 else axis})
     ax = data.ndim - 1 if axis is None or axis == -1 else axis
     hw = _hw_ref(data)
     if k > 1:
@@ -75,7 +75,7 @@ def check_disc(ctx, case):
     import warnings
     with warnings.catch_warnings():
         warnings.simplefilter('ignore')
-        out = must(case, '%s(axis=%s) on %s' % (name, axis, data.shape), DISC[name], gen.L(case, data), **({} if axis is None else {'axis': axis}))
+        out = must(case, '%s(axis=%s) on %s' % (name, axis, data.shape), DISC[name], gen.L(case, data), **({} if axis is None else {'axis': gen.npint(case, axis) if axis >= 0 else axis}))
     ax = data.ndim - 1 if axis is None or axis == -1 else axis
     moved = np.moveaxis(data, ax, -1)
     exp_shape = moved.shape[:-1]
